@@ -123,6 +123,9 @@ pub enum Act {
     /// a call that finishes the current message and carries one other message the peer may send at
     /// any time (it only counts as bytes): (type id, body)
     Other(u8, Vec<u8>),
+    /// an application call between two input calls (no bytes arrive): server accept_request(0) / client
+    /// request_connection; it must neither emit an Acknowledgement nor disturb the accounting
+    App,
 }
 
 pub struct G {
@@ -241,6 +244,31 @@ impl Graph for G {
                 }
                 o
             }
+            Act::App => {
+                let mut out = StepOut::new();
+                let mut n = s.clone();
+                out.impl_steps += 1;
+                let (ok, packets) = match &mut n.sess {
+                    Sess::Server(h) => {
+                        let o = h.step(&SAct::Accept { id: 0 });
+                        (o.panicked.is_none(), o.packets)
+                    }
+                    Sess::Client(h) => {
+                        let o = h.step(&CAct::RequestConnection { app: "a".into() });
+                        (o.panicked.is_none(), o.packets)
+                    }
+                };
+                if !ok {
+                    out.viol.push(("C17/panic".into(), "an application call panicked".into()));
+                    return out;
+                }
+                match acks_in(&mut n.de, &packets) {
+                    Ok(a) if a.is_empty() => out.succ.push(n),
+                    Ok(a) => out.viol.push(("C17/ack-unexpected".into(), format!("an application call (no input) emitted acknowledgements {:?}", a))),
+                    Err(e) => out.viol.push(("C17/undecodable-output".into(), e)),
+                }
+                out
+            }
             Act::Other(t, body) => {
                 let bytes = g.take_with_message(*t, body);
                 self.others.fetch_add(1, Ordering::Relaxed);
@@ -267,6 +295,7 @@ impl Graph for G {
             Act::Call(n) => json!({"handle_input_call_of_bytes": n}),
             Act::Reannounce(w) => json!({"call_finishing_current_message_then_window_announcement": w}),
             Act::Other(t, body) => json!({"call_finishing_current_message_then_message": {"type_id": t, "body": crate::util::hex(body)}}),
+            Act::App => json!("application call between input calls (server: accept_request(0), client: request_connection)"),
         }
     }
 }
@@ -335,7 +364,7 @@ pub fn run(run: &Run) {
     // ---- windows at the edges of the u32 range, reached by re-announcement from small ones (bounded depth) ----
     let edge_depth = if thorough { 7 } else { 5 };
     for kind in 0..2u8 {
-        let g = G { w0: 2, sizes: vec![0, 1, 2, 3, 5], reannounce: vec![1, 3, 1 << 24, 0x7FFF_FFFF, 0x8000_0000, 0xFFFF_FFFF],
+        let g = G { w0: 2, sizes: vec![0, 1, 2, 3, 5], reannounce: vec![1, 3, 2_500_000, 1_073_741_824, 1 << 24, 0x7FFF_FFFF, 0x8000_0000, 0xFFFF_FFFF],
             acks: AtomicU64::new(0), exact_landings: AtomicU64::new(0), reannouncements: AtomicU64::new(0), others: AtomicU64::new(0) };
         let o = g.step(&fresh(kind), &Act::Reannounce(2));
         if let Some((sig, d)) = o.viol.first() {
@@ -354,7 +383,7 @@ pub fn run(run: &Run) {
         }
         acks += g.acks.load(Ordering::Relaxed);
         reann += g.reannouncements.load(Ordering::Relaxed);
-        per_w.push(json!({"session": if kind == 0 { "server" } else { "client" }, "graph": "windows 1, 3, 2^24, 2^31-1, 2^31, 2^32-1 by re-announcement from 2", "depth_bound": edge_depth,
+        per_w.push(json!({"session": if kind == 0 { "server" } else { "client" }, "graph": "windows 1, 3, 2,500,000 and 2^30 (the sessions' own configured windows), 2^24, 2^31-1, 2^31, 2^32-1 by re-announcement from 2", "depth_bound": edge_depth,
             "states": stats.states, "transitions": stats.transitions}));
     }
     // ---- single calls far larger than the window and than any internal slice size (64 KiB, 1 MiB) ----
@@ -390,6 +419,50 @@ pub fn run(run: &Run) {
             }
         }
         run.count("huge_call_scripts", n);
+    }
+    // ---- application calls between input calls: a connect command arrives, the application answers later ----
+    {
+        let connect_body = crate::refmodel::amf0::encode_seq(&[crate::refmodel::amf0::V::Str("connect".into()), crate::refmodel::amf0::V::Num(1f64.to_bits()),
+            crate::refmodel::amf0::V::Obj(vec![("app".into(), crate::refmodel::amf0::V::Str("a".into()))])], &Default::default());
+        let mut n = 0u64;
+        for kind in 0..2u8 {
+            for w in [50u32, 300, 1000] {
+                for first_window in [true, false] {
+                    let g = G { w0: w, sizes: vec![], reannounce: vec![], acks: AtomicU64::new(0), exact_landings: AtomicU64::new(0), reannouncements: AtomicU64::new(0), others: AtomicU64::new(0) };
+                    let mut script: Vec<Act> = Vec::new();
+                    if first_window {
+                        script.push(Act::Reannounce(w));
+                    }
+                    if kind == 0 {
+                        script.push(Act::Other(20, connect_body.clone()));
+                    } else {
+                        script.push(Act::Call(20));
+                    }
+                    if !first_window {
+                        script.push(Act::Reannounce(w));
+                    }
+                    script.extend(vec![Act::Call(7), Act::App, Act::Call(5), Act::Call(w as usize), Act::Call(0), Act::Call(w as usize / 2 + 1), Act::Call(w as usize / 2 + 1)]);
+                    let mut cur = fresh(kind);
+                    let mut done: Vec<Value> = Vec::new();
+                    for a in script.iter() {
+                        let o = g.step(&cur, a);
+                        ti += o.impl_steps;
+                        tt += 1;
+                        done.push(g.describe(a));
+                        if let Some((sig, d)) = o.viol.into_iter().next() {
+                            run.violation(&format!("{}/{}", sig, if kind == 0 { "server" } else { "client" }), &d, json!({"session": if kind == 0 { "server" } else { "client" }, "window": w, "graph": "application calls between input calls", "ops": done}));
+                            break;
+                        }
+                        cur = match o.succ.into_iter().next() {
+                            Some(x) => x,
+                            None => break,
+                        };
+                    }
+                    n += 1;
+                }
+            }
+        }
+        run.count("application_call_scripts", n);
     }
     // ---- sampled large windows (labelled as sampled, as the property itself does) ----
     let big: Vec<u32> = if thorough { vec![100, 4096, 65_535, 1 << 24, 1 << 31, u32::MAX] } else { vec![100, 65_535, 1 << 24] };
